@@ -175,6 +175,58 @@ theorem InvS.fresh (k : Kcp) (hq : k.snd_queue = []) (hb : k.snd_buf = []) (hu :
     InvS k.snd_nxt k [] :=
   ⟨by simp, ⟨0, by simp [hb], by simp [hu], by rw [hb]; trivial⟩, by simp [hq]⟩
 
+/-! `shrink_buf`: drop the individually acknowledged head segments, then set `snd_una` -/
+
+theorem dropAcked_drop (l : List Seg) : ∃ c, c ≤ l.length ∧ dropAcked l = l.drop c := by
+  induction l with
+  | nil => exact ⟨0, Nat.le_refl _, rfl⟩
+  | cons s rest ih =>
+    unfold dropAcked
+    split
+    · obtain ⟨c, hc, h⟩ := ih
+      exact ⟨c + 1, by simp; omega, by simpa using h⟩
+    · exact ⟨0, Nat.zero_le _, rfl⟩
+
+theorem shrinkBuf_nil (k : Kcp) (h : dropAcked k.snd_buf = []) :
+    shrinkBuf k = { k with snd_buf := [], snd_una := k.snd_nxt } := by
+  unfold shrinkBuf; rw [h]
+
+theorem shrinkBuf_cons (k : Kcp) (s : Seg) (rest : List Seg) (h : dropAcked k.snd_buf = s :: rest) :
+    shrinkBuf k = { k with snd_buf := s :: rest, snd_una := s.sn } := by
+  unfold shrinkBuf; rw [h]
+
+theorem shrinkBuf_queue (k : Kcp) : (shrinkBuf k).snd_queue = k.snd_queue ∧ (shrinkBuf k).snd_nxt = k.snd_nxt ∧
+    (shrinkBuf k).mss = k.mss ∧ (shrinkBuf k).stream = k.stream := by
+  unfold shrinkBuf
+  split <;> exact ⟨rfl, rfl, rfl, rfl⟩
+
+/-- `shrink_buf` establishes the invariant from its `snd_una`-free part (what `parse_una` and
+`parse_ack` leave behind): popping acknowledged heads and advancing `snd_una` go together -/
+theorem shrinkBuf_invS {sn0 : U32} {k : Kcp} {L : List Content}
+    (hn : k.snd_nxt = sn0 + BitVec.ofNat 32 L.length)
+    (hb : ∃ a, a + k.snd_buf.length = L.length ∧ BufS sn0 L a k.snd_buf)
+    (hq : ∀ s ∈ k.snd_queue, s.data.length ≤ mtuLimit) : InvS sn0 (shrinkBuf k) L := by
+  obtain ⟨a, hlen, hbs⟩ := hb
+  obtain ⟨c, hc, hd⟩ := dropAcked_drop k.snd_buf
+  have hdrop := hbs.drop c hc
+  cases hx : dropAcked k.snd_buf with
+  | nil =>
+    rw [shrinkBuf_nil k hx]
+    exact ⟨hn, ⟨L.length, by simp, hn, trivial⟩, hq⟩
+  | cons s rest =>
+    rw [shrinkBuf_cons k s rest hx]
+    rw [hx] at hd
+    rw [← hd] at hdrop
+    refine ⟨hn, ⟨a + c, ?_, hdrop.1.1, hdrop⟩, hq⟩
+    have := congrArg List.length hd
+    simp at this
+    show a + c + (s :: rest).length = L.length
+    simp; omega
+
+theorem InvS.shrink {sn0 : U32} {k : Kcp} {L : List Content} (h : InvS sn0 k L) : InvS sn0 (shrinkBuf k) L := by
+  obtain ⟨a, hlen, _, hb⟩ := h.buf
+  exact shrinkBuf_invS h.nxt ⟨a, hlen, hb⟩ h.que
+
 /-- window update + `parse_una` + `shrink_buf` -/
 theorem inSt1_invS {sn0 : U32} {st : InLoop} {L : List Content} (h : InvS sn0 st.k L) (regular : Bool) (hd : Hdr) :
     InvS sn0 (inSt1 regular st hd).k L := by
@@ -184,19 +236,14 @@ theorem inSt1_invS {sn0 : U32} {st : InLoop} {L : List Content} (h : InvS sn0 st
     intro k1 e1 e2 e3
     have hc := unaCount_le hd.una st.k.snd_buf
     have hdrop := hb.drop (unaCount hd.una st.k.snd_buf) hc
-    unfold shrinkBuf parseUna
-    simp only [e1]
-    cases hq : st.k.snd_buf.drop (unaCount hd.una st.k.snd_buf) with
-    | nil =>
-      simp only []
-      refine ⟨by rw [e2]; exact h.nxt, ⟨L.length, by simp, by rw [e2]; exact h.nxt, trivial⟩, by rw [e3]; exact h.que⟩
-    | cons s rest =>
-      simp only []
-      rw [hq] at hdrop
-      refine ⟨by rw [e2]; exact h.nxt, ⟨a + unaCount hd.una st.k.snd_buf, ?_, hdrop.1.1, hdrop⟩, by rw [e3]; exact h.que⟩
-      have := congrArg List.length hq
-      simp at this
-      simp; omega
+    apply shrinkBuf_invS
+    · show k1.snd_nxt = _; rw [e2]; exact h.nxt
+    · refine ⟨a + unaCount hd.una st.k.snd_buf, ?_, ?_⟩
+      · show _ + (k1.snd_buf.drop (unaCount hd.una k1.snd_buf)).length = _
+        rw [e1, List.length_drop]; omega
+      · show BufS sn0 L _ (k1.snd_buf.drop (unaCount hd.una k1.snd_buf))
+        rw [e1]; exact hdrop
+    · show ∀ s ∈ k1.snd_queue, _; rw [e3]; exact h.que
   unfold inSt1
   simp only []
   split
@@ -227,7 +274,7 @@ theorem inSt2_invS {sn0 : U32} {st1 : InLoop} {L : List Content} (h : InvS sn0 s
   unfold inSt2
   simp only []
   split
-  · exact parseFastack_invS (parseAck_invS h _) _ _
+  · exact parseFastack_invS (parseAck_invS h _).shrink _ _
   · split
     · split
       · split
@@ -545,19 +592,25 @@ theorem send_invS {sn0 : U32} {k : Kcp} {L : List Content} (h : InvS sn0 k L) (b
 
 theorem inSt1_queue (regular : Bool) (st : InLoop) (hd : Hdr) :
     (inSt1 regular st hd).k.snd_queue = st.k.snd_queue := by
-  unfold inSt1 shrinkBuf parseUna
+  unfold inSt1
   simp only []
-  repeat' split
-  all_goals rfl
+  rw [(shrinkBuf_queue _).1]
+  unfold parseUna
+  split <;> rfl
+
+theorem parseAck_queue (k : Kcp) (sn : U32) : (parseAck k sn).snd_queue = k.snd_queue := by
+  unfold parseAck; split <;> rfl
+
+theorem parseFastack_queue (k : Kcp) (sn ts : U32) : (parseFastack k sn ts).1.snd_queue = k.snd_queue := by
+  unfold parseFastack; split <;> rfl
 
 theorem inSt2_queue (st1 : InLoop) (hd : Hdr) (body : Bytes) :
     (inSt2 st1 hd body).k.snd_queue = st1.k.snd_queue := by
   unfold inSt2
   simp only []
   split
-  · unfold parseFastack parseAck
-    repeat' split
-    all_goals rfl
+  · show (parseFastack (shrinkBuf (parseAck st1.k hd.sn)) hd.sn hd.ts).1.snd_queue = _
+    rw [parseFastack_queue, (shrinkBuf_queue _).1, parseAck_queue]
   · split
     · split
       · split
